@@ -8,7 +8,7 @@ reg(Prop('C18', [
     Stream('c18.hdr', 5000, 200000, 'model'),
     Stream('c18.ranges', 5000, 200000, 'model'),
     Stream('c18.write', 1500, 40000, 'oracle', timeout=900,
-           exhaustive='every DWARF version 2..5 x format x address size x byte order x frame-table flavour (none, .debug_frame, .eh_frame absptr, .eh_frame absptr+personality/LSDA) with all features on'),
+           exhaustive='every DWARF version 2..5 x format x address size x byte order x frame-table flavour (none, .debug_frame with several CIEs, .eh_frame absptr, .eh_frame absptr+personality/LSDA) with all features on'),
     Stream('c18.corpus', 1, 4, 'oracle', modes=('release',), timeout=900,
            exhaustive='every corpus variant (41 section sets: gcc/clang, DWARF 2..5, split, type units, dwarf64, packages)'),
 ], level='proof', design_ref='§5 C18',
@@ -28,6 +28,6 @@ reg(Prop('C18', [
     ],
     assumptions=['usize = u64 (ReaderOffset::from_u64 never fails)', 'a relocated value that does not fit its field has no pre-applied counterpart: Relocate receives no width, so transparency is claimed only for fitting values (stated in trace_ok)'],
     technique='Coq proof over a Gallina model of RelocateWriter/RelocateReader (writer-op language with two interpreters; reader monad with plain and relocating interpreters) + differential correspondence with gimli (debug+release) + implementation-side replay of recorded relocations',
-    level_text='PARTIAL proof. Proved in Coq for all inputs of the model: writing through the recording writer and applying the recorded relocations equals direct writing, for every sequence of Writer calls (so for every gimli writer, which emits bytes only through those calls), with the exact list of recorded relocations; reading through RelocateReader with a relocation-map Relocate equals reading the pre-applied section, for every parser expressible by the Reader methods, under the stated side condition (relocations only where the parser uses a relocatable method, values fitting); identity relocation is invisible; no panics. The models are tied to gimli on every run (about 65k cases quick: op scripts, reader programs, unit headers, range lists; exhaustive over pointer encodings and sizes). That the real writers and parsers use the relocatable primitives exactly for addresses and cross-section offsets is decided by replay on generated objects and the compiler corpus only; that search found two places where they do not (known findings: .debug_frame CIE pointer read plainly; .eh_frame encoded pointers not relocatable on the reading side).',
+    level_text='PARTIAL proof. Proved in Coq for all inputs of the model: writing through the recording writer and applying the recorded relocations equals direct writing, for every sequence of Writer calls (so for every gimli writer, which emits bytes only through those calls), with the exact list of recorded relocations; reading through RelocateReader with a relocation-map Relocate equals reading the pre-applied section, for every parser expressible by the Reader methods, under the stated side condition (relocations only where the parser uses a relocatable method, values fitting); identity relocation is invisible; no panics. The models are tied to gimli on every run (about 65k cases quick: op scripts, reader programs, unit headers, range lists; exhaustive over pointer encodings and sizes). That the real writers and parsers use the relocatable primitives exactly for addresses and cross-section offsets is decided by replay on generated objects and the compiler corpus only; that search found two places where they do not: the .debug_frame CIE pointer was read with a plain integer primitive (repaired in /repo 714a553, now part of the replayed relocatable fields: FDE CIE pointer, FDE/CIE absptr addresses, personality, LSDA) and .eh_frame udata/sdata-encoded pointers cannot be relocated on the reading side (known finding).',
     level_note='Trusted: Coq kernel; the hand-written model Reloc.v (tied by differential execution); harness/src/c18.rs (its own apply-relocation routines, the recording writer, the relocation-map Relocate, the semantic dump); the corpus. The reader-monad syntax has no primitive for find/read_null_terminated_slice, to_slice or offset_id, so parsers using them (strings) are covered by replay only.',
 ))
